@@ -33,7 +33,12 @@ class LinguaMakoExtractor(Extractor, MessageExtractor):
             yield from self.process_file(file_)
 
     def process_python(self, code, code_lineno, translator_strings):
-        source = code.getvalue().strip()
+        source = code.getvalue()
+        # the lines removed from the front move the first line that remains
+        # down by as many template lines
+        leading = len(source) - len(source.lstrip())
+        code_lineno += source.count("\n", 0, leading)
+        source = source.strip()
         if source.endswith(":"):
             if source in ("try:", "else:") or source.startswith("except"):
                 source = ""  # Ignore try/except and else
